@@ -57,7 +57,57 @@ def translate(repo: Path) -> str:
         raise TranslateError("run_refurb no longer returns sorted(filtered errors, key=sort_errors)")
     return ("From Lib Require Import Base.\nOpen Scope list_scope.\n"
             f"Definition key_filename : list string := {coq.coq_list([S(x) for x in kf])}.\n"
-            f"Definition key_error : list string := {coq.coq_list([S(x) for x in ke])}.\n")
+            f"Definition key_error : list string := {coq.coq_list([S(x) for x in ke])}.\n"
+            f"Definition process_state : list string := {coq.coq_list([S(x) for x in process_state(repo)])}.\n")
+
+
+
+def process_state(repo: Path) -> list[str]:
+    """Everything in refurb (outside `refurb gen`) that outlives one run_refurb call: memoised functions and
+    module-level containers that some function mutates.  `cleared` = run_refurb empties it before it builds."""
+    from ..translate.effects import MUTATORS
+    main_src = (repo / "refurb" / "main.py").read_text("utf8")
+    mt = ast.parse(main_src)
+    rr = next((n for n in mt.body if isinstance(n, ast.FunctionDef) and n.name == "run_refurb"), None)
+    cleared = set()
+    if rr is not None:
+        for n in ast.walk(rr):
+            if isinstance(n, ast.Call) and isinstance(n.func, ast.Attribute) and n.func.attr in ("cache_clear", "clear") and isinstance(n.func.value, ast.Name):
+                cleared.add(n.func.value.id)
+    out = []
+    for p in sorted((repo / "refurb").rglob("*.py")):
+        rel = str(p.relative_to(repo))
+        if rel == "refurb/gen.py":
+            continue
+        tree = ast.parse(p.read_text("utf8"))
+        for n in ast.walk(tree):
+            if isinstance(n, (ast.FunctionDef, ast.AsyncFunctionDef)):
+                for d in n.decorator_list:
+                    name = ast.unparse(d.func if isinstance(d, ast.Call) else d).split(".")[-1]
+                    if name in ("cache", "lru_cache", "cached_property"):
+                        out.append(f"memo:{rel}:{n.name}:{'cleared-each-run' if n.name in cleared and rel == 'refurb/main.py' else 'never-cleared'}")
+        module_names = {}
+        for n in tree.body:
+            if isinstance(n, (ast.Assign, ast.AnnAssign)) and n.value is not None:
+                v = ast.unparse(n.value)
+                if re.fullmatch(r"(set|dict|list|defaultdict|deque|Counter)(\[.*\])?\(.*\)|\[.*\]|\{.*\}", v, flags=re.S):
+                    for t in (n.targets if isinstance(n, ast.Assign) else [n.target]):
+                        if isinstance(t, ast.Name):
+                            module_names[t.id] = v
+        mutated = set()
+        for fn in [x for x in ast.walk(tree) if isinstance(x, (ast.FunctionDef, ast.AsyncFunctionDef))]:
+            for n in ast.walk(fn):
+                if isinstance(n, ast.Call) and isinstance(n.func, ast.Attribute) and n.func.attr in MUTATORS and isinstance(n.func.value, ast.Name) and n.func.value.id in module_names:
+                    mutated.add(n.func.value.id)
+                tg = n.targets if isinstance(n, (ast.Assign, ast.Delete)) else [n.target] if isinstance(n, ast.AugAssign) else []
+                for t in tg:
+                    if isinstance(t, ast.Subscript) and isinstance(t.value, ast.Name) and t.value.id in module_names:
+                        mutated.add(t.value.id)
+                if isinstance(n, ast.Global):
+                    mutated |= set(n.names)
+        for name in sorted(mutated):
+            out.append(f"container:{rel}:{name}:{'cleared-each-run' if name in cleared and rel == 'refurb/main.py' else 'never-cleared'}")
+    return sorted(out)
 
 
 PROGS = {
@@ -168,7 +218,7 @@ def run(ctx: Ctx) -> None:
         cache_and_concurrency(ctx, td, files)
     finally:
         shutil.rmtree(td, ignore_errors=True)
-    ctx.resolve_broken({"sort_perm_invariant": "file-order-matters", "partition_invariant": "grouping-matters",
+    ctx.resolve_broken({"process_state_inventory": "history:", "sort_perm_invariant": "file-order-matters", "partition_invariant": "grouping-matters",
                         "key_order_documented": "not-sorted", "sorted_output": "not-sorted"}, b.first_error if b else "")
 
 
